@@ -144,6 +144,7 @@ def finish(ctx):
     for ext in sorted(EXT_TYPE):
         ctx.require('ext.' + ext, 2, 'files with the typed extension %s must be loaded' % ext)
     ctx.require('ext.untyped', 2, 'files with an untyped extension must be loaded')
+    ctx.require('len.1000+', 1, 'sequences of a thousand and more residues must be built')
     for form in ('list', 'tuple', 'generator', 'iterator', 'deque', 'reiterable'):
         ctx.require('container.' + form, 2, 'read_fasta must be fed the lines of a text as a %s' % form)
 
@@ -275,6 +276,11 @@ def _length(ctx):
         return rng.choice([0, 1, 2, 3])
     if r < 0.45:
         return rng.randint(4, 40)
+    if r > 0.975:
+        # "lengths 0..thousands": both tiers see sequences of a thousand and more residues (a real protein or gene),
+        # round lengths and their neighbours included
+        return rng.choice([1000, 1001, 1023, 1024, 1025, 2000, 2001, rng.randint(1001, 4000),
+                           rng.randint(4001, 20000) if ctx.thorough() else rng.randint(1001, 3000)])
     if not ctx.thorough() or r < 0.85:
         return rng.randint(41, 200)
     if r < 0.95:
